@@ -1,9 +1,9 @@
 package main
 
 // Generator "AddTo": zapcore/field.go -> Gen/AddTo.v
-//   ftypes : list (string * Z)          the FieldType enumeration (const block with iota)
-//   arms   : list (string * arm)        Field.AddTo's switch
-//   eq_classes : list (string * eqclass) Field.Equals's switch (explicit cases; default = f == other)
+//   ftypes : list (name * Z)          the FieldType enumeration (const block with iota)
+//   arms   : list (name * arm)        Field.AddTo's switch
+//   eq_classes : list (name * eqclass) Field.Equals's switch (explicit cases; default = f == other)
 //
 // Source shapes recognised (anything else is an error):
 //
@@ -203,7 +203,7 @@ func genC03AddTo(repo, out, harness string) error {
 	var b strings.Builder
 	b.WriteString("(* GENERATED by gen/c03_addto.go from zapcore/field.go -- data only, do not edit *)\n")
 	b.WriteString("From Coq Require Import List ZArith String.\nImport ListNotations.\nFrom Zap Require Import C03.Lang.\n\n")
-	b.WriteString("Definition ftypes : list (string * Z) := [\n")
+	b.WriteString("Definition ftypes : list (name * Z) := [\n")
 	for i, n := range fts {
 		sep := ";"
 		if i == len(fts)-1 {
@@ -240,7 +240,7 @@ func genC03AddTo(repo, out, harness string) error {
 	if !sawDefault {
 		return s.errf(sw, "AddTo has no default arm")
 	}
-	b.WriteString("Definition arms : list (string * arm) := [\n" + strings.Join(arms, ";\n") + "\n].\n\n")
+	b.WriteString("Definition arms : list (name * arm) := [\n" + strings.Join(arms, ";\n") + "\n].\n\n")
 
 	// ---- Equals ----
 	eq := c03FindMethod(s, "Field", "Equals")
@@ -313,7 +313,7 @@ func genC03AddTo(repo, out, harness string) error {
 	if !sawDefault {
 		return s.errf(esw, "Equals has no default arm")
 	}
-	b.WriteString("Definition eq_classes : list (string * eqclass) := [\n" + strings.Join(eqs, ";\n") + "\n].\n")
+	b.WriteString("Definition eq_classes : list (name * eqclass) := [\n" + strings.Join(eqs, ";\n") + "\n].\n")
 	return c03WriteFile(filepath.Join(out, "AddTo.v"), b.String())
 }
 
